@@ -1,3 +1,4 @@
+import numpy
 from . import cpp as this_module
 from .base import PrinterBase, modifier_base
 from .. import utils
@@ -160,6 +161,11 @@ class Printer(PrinterBase):
 
     def make_constant(self, like, value):
         typ = self.get_type(like)
+        if isinstance(value, (complex, numpy.complexfloating)) and typ.startswith("std::complex<"):
+            # str() of a complex value, e.g. (2+0j), is not a C++ expression
+            part_like = like.context.real(like) if like.get_type().is_complex else like
+            re, im = (self.make_constant(part_like, part) for part in (value.real, value.imag))
+            return f"{typ}({re}, {im})"
         s = str(value)
         if s == "inf":
             s = f"std::numeric_limits<{typ}>::infinity()"
